@@ -115,12 +115,34 @@ fn values_palette() -> Vec<Value> {
     vec![Value::Null, Value::from(7), Value::Bytes(vec![1])]
 }
 fn gen_val(g: &mut Gen) -> Value {
-    match g.below(5) {
+    match g.below(9) {
         0 => Value::Null,
         1 => Value::from(g.i64()),
         2 => Value::Bytes(g.small_bytes()),
         3 => Value::Text(g.text()),
-        _ => Value::Array(vec![Value::Bool(g.bool())]),
+        4 => Value::Array(vec![Value::Bool(g.bool())]),
+        // the shapes the registered-but-uninterpreted parameters take (certificate bags and chains, hashes,
+        // URIs, nested maps) and their near misses: lists of 0, 1, 2 byte strings, [int, bstr], ...
+        5 => Value::Array((0..g.below(4)).map(|_| Value::Bytes(g.small_bytes())).collect()),
+        6 => Value::Array(vec![Value::from(g.range_i64(-50, 50)), Value::Bytes(g.small_bytes())]),
+        7 => Value::Map(vec![(Value::from(g.range_i64(-3, 3)), Value::Array(vec![Value::Bytes(g.small_bytes())]))]),
+        _ => Value::Array(vec![Value::Array(vec![Value::Bytes(g.small_bytes())])]),
+    }
+}
+
+/// A label argument for an "any other label" call: small integers, every number some COSE / CWT
+/// registry assigns (they may mean something to the crate one day) and its neighbours, the
+/// private-use boundary, any 64-bit integer.
+fn gen_label_arg(g: &mut Gen, small: (i64, i64)) -> i64 {
+    match g.below(5) {
+        0 | 1 => g.range_i64(small.0, small.1),
+        2 => {
+            let tables = [reg::HEADER_PARAMETER, reg::HEADER_ALGORITHM_PARAMETER, reg::KEY_PARAMETER, reg::OKP_KEY_PARAMETER, reg::EC2_KEY_PARAMETER, reg::RSA_KEY_PARAMETER, reg::WALNUT_DSA_KEY_PARAMETER, reg::CWT_CLAIM_NAME, reg::KEY_OPERATION];
+            let t = tables[g.below(tables.len())];
+            t[g.below(t.len())].1.saturating_add([0i64, 0, 0, 0, 0, 0, 1, -1][g.below(8)])
+        }
+        3 => -65536 + g.range_i64(-3, 3),
+        _ => g.i64(),
     }
 }
 /// A counter-signature as a decoder yields it: its protected header retains (non-canonical) wire bytes.
@@ -255,6 +277,9 @@ impl Spec for HeaderSpec {
         for l in [-1i64, 0, 1, 2, 3, 4, 5, 6, 7, 8, 9, i64::MIN, i64::MAX] {
             v.push(HOp::Value(l, Value::from(1)));
         }
+        // registered parameters the crate does not interpret, with values of the shape their definitions give
+        v.push(HOp::Value(33, Value::Array(vec![Value::Bytes(vec![0x30, 0x01])])));
+        v.push(HOp::Value(34, Value::Array(vec![Value::from(-16), Value::Bytes(vec![2])])));
         v
     }
     fn gen_op(g: &mut Gen) -> HOp {
@@ -272,7 +297,7 @@ impl Spec for HeaderSpec {
             6 => HOp::Iv(gen_bytes(g)),
             7 => HOp::PartialIv(gen_bytes(g)),
             8 => HOp::AddCounterSignature(gen_sig(g)),
-            9 => HOp::Value(if g.bool() { g.range_i64(-2, 10) } else { g.i64() }, gen_val(g)),
+            9 => HOp::Value(gen_label_arg(g, (-2, 10)), gen_val(g)),
             _ => HOp::TextValue(g.text(), gen_val(g)),
         }
     }
@@ -781,7 +806,7 @@ impl Spec for KeySpec {
             7 => KOp::BaseIv(gen_bytes(g)),
             8 => KOp::Algorithm(reg::ALGORITHM[g.below(reg::ALGORITHM.len())].1),
             9 => KOp::AddKeyOp(g.range_i64(1, 10)),
-            _ => KOp::Param(if g.bool() { g.range_i64(-6, 8) } else { g.i64() }, gen_val(g)),
+            _ => KOp::Param(gen_label_arg(g, (-6, 8)), gen_val(g)),
         }
     }
     fn real(ops: &[KOp]) -> Run<CoseKey> {
@@ -915,7 +940,7 @@ impl Spec for ClaimsSpec {
             6 => COp::CwtId(gen_bytes(g)),
             7 => COp::Claim(reg::CWT_CLAIM_NAME[g.below(reg::CWT_CLAIM_NAME.len())].1, gen_val(g)),
             8 => COp::TextClaim(g.text(), gen_val(g)),
-            _ => COp::PrivateClaim(if g.bool() { -65536 + g.range_i64(-3, 3) } else { g.i64() }, gen_val(g)),
+            _ => COp::PrivateClaim(if g.bool() { -65536 + g.range_i64(-3, 3) } else { gen_label_arg(g, (-3, 9)) }, gen_val(g)),
         }
     }
     fn real(ops: &[COp]) -> Run<ClaimsSet> {
